@@ -19,7 +19,7 @@ type pgen struct {
 }
 
 var colNames = []string{"a", "b", "c", "k", "x", "n", "Kind", "name"}
-var tableNames = []string{"T", "U", "Events", "`my table`", "B", "`let`", "`by`", "Let", "``"}
+var tableNames = []string{"T", "U", "Events", "`my table`", "B", "`let`", "`by`", "Let", "``", "`cpu%`", "`a//b`", "`my.table`", "__subquery0", "__subquery1"}
 var unknownFuncs = []string{"f", "strlen", "min", "max", "sum", "avg", "dcount", "g", "IsNull", "StrCat", "ToLower", "Now", "Iff", "IsNotNull", "Count"}
 var builtinFuncs = []struct {
 	name  string
@@ -27,8 +27,8 @@ var builtinFuncs = []struct {
 }{{"not", 1}, {"isnull", 1}, {"isnotnull", 1}, {"tolower", 1}, {"toupper", 1}, {"countif", 1}, {"now", 0}, {"count", 0}, {"iff", 3}, {"iif", 3}, {"strcat", -1}}
 var binOps = []string{"or", "and", "==", "!=", "<", "<=", ">", ">=", "=~", "!~", "+", "-", "*", "/", "%"}
 var numberLits = []string{"0", "1", "2", "42", "007", "1.5", ".5", "0.25", "1e3", "1E-2", "2.5e+3", "0x1f", "0XFF", "0x0", "18446744073709551615", "00", "1E3", "5E0", "1.0E3", "0xFFFFFFFFFFFFFFFF", "0x8000000000000000", "0x10000000000000000", "0x1ffffffffffffffff", "0X7fffffffffffffff"}
-var stringLits = []string{"'s'", "\"d\"", "'a b'", "''", "'it\\'s'", "\"q\\\"q\"", "'tab\\t'", "'nl\\n'", "'back\\\\slash'", "'semi;colon'", "'// no comment'", "'\xc3\xa9'", "\"it's\""}
-var hostileContents = []string{"'", "\"", "`", "\\", "\\\\", "x\\", "--", "/*", "*/", ";", "\x00", "\xff", "a'b", "a\"b", "' OR 1=1 --", "', (select 1) as y, '", "\n", "\t", "é", "a\\'b", "}", "{p}", "x' , (select 1) as y, '", "\\'", "'';", "a''b", "\"\"", " ", ""}
+var stringLits = []string{"'s'", "\"d\"", "'a b'", "''", "'it\\'s'", "\"q\\\"q\"", "'tab\\t'", "'nl\\n'", "'back\\\\slash'", "'semi;colon'", "'// no comment'", "'\xc3\xa9'", "\"it's\"", "'https://h/p'", "\"a//b\"", "'100%'", "'%s'"}
+var hostileContents = []string{"'", "\"", "`", "\\", "\\\\", "x\\", "--", "/*", "*/", ";", "\x00", "\xff", "a'b", "a\"b", "' OR 1=1 --", "', (select 1) as y, '", "\n", "\t", "é", "a\\'b", "}", "{p}", "x' , (select 1) as y, '", "\\'", "'';", "a''b", "\"\"", " ", "", "cpu%", "%s%d%v", "100%!", "a//b", "http://h", "x\u00a0y", "z\u200bw", "\u2028"}
 
 func (g *pgen) sep() string {
 	if g.noLayout {
@@ -309,6 +309,9 @@ func (g *pgen) operator(depth, joinDepth int) string {
 	case 10:
 		return "count"
 	case 11:
+		if g.r.chance(1, 3) {
+			return "as" + g.sep() + pick(g.r, []string{"X", "X", "Y", "__subquery0", "__subquery1", "__subquery2", "__subquery3", "`x\"y`", "`a%b`"})
+		}
 		return "as" + g.sep() + g.name()
 	case 12:
 		s := "join" + g.sep()
@@ -551,6 +554,52 @@ func init() {
 			emit(hx(s))
 		}
 	}
+	// wide: flat programs with very many uses of bound names, constants and columns (a per-use leak
+	// or cost in the compiler shows only past some hundreds of uses within one call)
+	families["wide"] = func(r *rng, n int, emit emitFn) {
+		for i := 0; i < n; i++ {
+			w := pick(r, []string{"40", "300", "1100", "1500"})
+			var wn int
+			fmt.Sscan(w, &wn)
+			wn += r.intn(7)
+			atom := pick(r, []string{"p", "p", "true", "null", "a", "q", "7", "'s'"})
+			var parts []string
+			var s string
+			switch r.intn(6) {
+			case 0:
+				for j := 0; j < wn; j++ {
+					parts = append(parts, fmt.Sprintf("c%d = %s", j, atom))
+				}
+				s = "T | project " + strings.Join(parts, ", ") + " | take 5"
+			case 1:
+				for j := 0; j < wn; j++ {
+					parts = append(parts, atom)
+				}
+				s = "T | where " + strings.Join(parts, " + ") + " > 0"
+			case 2:
+				for j := 0; j < wn; j++ {
+					parts = append(parts, atom)
+				}
+				s = "T | where a in (" + strings.Join(parts, ", ") + ")"
+			case 3:
+				for j := 0; j < wn; j++ {
+					parts = append(parts, fmt.Sprintf("c%d = %s", j, atom))
+				}
+				s = "T | extend " + strings.Join(parts, ", ")
+			case 4:
+				for j := 0; j < wn/4+1; j++ {
+					parts = append(parts, "where a == "+atom)
+				}
+				s = "T | " + strings.Join(parts, " | ")
+			default:
+				for j := 0; j < wn; j++ {
+					parts = append(parts, atom)
+				}
+				s = "T | where strcat(" + strings.Join(parts, ", ") + ") == 's' | join (U) on " + strings.Join(parts[:1+wn/8], ", ")
+			}
+			emit(hx(pick(r, []string{"let p = 0; let q = p; ", "let p = 'v'; ", ""}) + s))
+		}
+	}
 	// letchain: every let uses the previous binding twice, so the substituted SQL doubles per statement.
 	// Each case is a pair: the program with k lets and the same program with one more.
 	families["letchain"] = func(r *rng, n int, emit emitFn) {
@@ -660,7 +709,7 @@ func init() {
 		digits := "0123456789"
 		for i := 0; i < n; i++ {
 			var s string
-			switch r.intn(8) {
+			switch r.intn(9) {
 			case 0:
 				s = pick(r, numberLits)
 			case 1:
@@ -686,6 +735,13 @@ func init() {
 				}
 			case 6:
 				s = pick(r, []string{"1", "0", "12", "1.5", ".5", "00"}) + pick(r, []string{"e", "E"}) + pick(r, []string{"", "+", "-"}) + pick(r, []string{"", "0", "5", "12"})
+			case 7:
+				// a backslash directly before a byte that is not ASCII (invalid, truncated or valid multi-byte),
+				// after zero to three ordinary bytes
+				q := pick(r, []string{"'", "\""})
+				s = q + pick(r, []string{"", "a", "ab", "abc", "\\n", "\xc3\xa9"}) + "\\" +
+					pick(r, []string{"\xff", "\x80", "\xc0", "\xc3", "\xe2\x82", "\xc3\xa9", "\xe2\x82\xac", "\xf0\x9f\x98\x80", "\xed\xa0\x80", "x4", "x", "u00e9"}) +
+					pick(r, []string{"", "cd", "\xff", "\\t"}) + pick(r, []string{q, q, ""})
 			default:
 				s = randBytes(r)
 			}
@@ -780,13 +836,13 @@ var pipeOps = []string{
 var pipeArgs = map[string][]string{
 	"where":     {"where a > 1", "filter b == 'x'", "where isnull(a)", "where a in (1, 2) and not(b =~ 'X')", "where true", "where 1"},
 	"project":   {"project a, b", "project b", "project x = a + b, a", "project a = b", "project `q c` = a"},
-	"extend":    {"extend c = a + 1", "extend a * 2", "extend c = 1, d = 'k'", "extend n = strcat(b, 'x')"},
-	"summarize": {"summarize n = count() by a", "summarize by a", "summarize count()", "summarize s = sum(a), m = max(b) by b, k = a % 2", "summarize countif(a > 1) by b", "summarize sum(a), by b"},
+	"extend":    {"extend c = a + 1", "extend a * 2", "extend c = 1, d = 'k'", "extend n = strcat(b, 'x')", "extend strcat('https://h/', b), `q c`"},
+	"summarize": {"summarize n = count() by a", "summarize by a", "summarize count()", "summarize s = sum(a), m = max(b) by b, k = a % 2", "summarize countif(a > 1) by b", "summarize sum(a), by b", "summarize count() by strcat('a//b', b), strcat(\"//\", a)"},
 	"sort":      {"sort by a", "order by b asc", "sort by a desc, b asc nulls last", "sort by a nulls first", "sort by a + b desc", "sort by a asc, b", "sort by a nulls first, b desc", "order by a asc, b, k desc nulls first", "sort by b, a asc, k"},
 	"take":      {"take 2", "limit 1", "take 0", "take 0x3", "take 007", "take 10", "take 9", "limit 100", "take 20", "take 18446744073709551616"},
 	"top":       {"top 2 by b", "top 1 by a asc", "top 3 by a desc nulls first", "top 0 by b", "top 2 by b nulls first", "top 2 by a asc nulls last", "top 18446744073709551616 by a"},
 	"count":     {"count"},
-	"as":        {"as X", "as `my name`", "as a"},
+	"as":        {"as X", "as `my name`", "as a", "as __subquery1", "as __subquery2", "as X"},
 	"render":    {"render table", "render barchart with (title = 'x')", "render piechart with (kind = stacked, a = 1)"},
 }
 
@@ -798,6 +854,14 @@ func init() {
 	families["pipes-exh-4"] = func(r *rng, n int, emit emitFn) { pipesExh(4, emit) }
 	families["pipes"] = func(r *rng, n int, emit emitFn) {
 		for i := 0; i < n; i++ {
+			if r.chance(1, 25) {
+				// an `as` name bound twice, also one that looks like the generated name of the subquery that reuses it
+				k := r.intn(4)
+				nm := pick(r, []string{"X", fmt.Sprintf("__subquery%d", k+1), fmt.Sprintf("__subquery%d", k), fmt.Sprintf("__subquery%d", k+2)})
+				s := "T" + strings.Repeat(" | where a > 1", k) + " | as " + nm + pick(r, []string{"", " | take 2", " | join (U) on a"}) + " | as " + nm + pick(r, []string{" | count", "", " | project a"})
+				emit(hx(s))
+				continue
+			}
 			k := 1 + r.intn(8)
 			s := pick(r, []string{"T", "U", "`my table`"})
 			for j := 0; j < k; j++ {
@@ -815,7 +879,7 @@ func init() {
 		g := &pgen{r: r, noLayout: true}
 		for i := 0; i < n; i++ {
 			fields := []string{hx(genLets(r, g))}
-			for _, k := range []string{"p1", "p2", "a", "true", "x", "n"} {
+			for _, k := range []string{"p1", "p2", "a", "true", "x", "n", "null", "Lim", "LIM", "P1"} {
 				if r.chance(1, 3) {
 					fields = append(fields, hx(k), hx(pick(r, []string{"{p:String}", "$1", "42", "'lit'", "(1 + 2)", "\"col\"", "NULL"})))
 				}
@@ -880,12 +944,18 @@ func genJoin(r *rng, depth int) string {
 }
 
 func genLets(r *rng, g *pgen) string {
-	names := []string{"x", "n", "a", "p1", "true", "lim"}
-	vals := []string{"1", "-5", "'s'", "1 + 2", "x", "n", "p1", "p2", "now()", "strcat('a', x)", "-(-1)", "(2)", "not(true)", "null", "a", "-x", "x * 2", "`q`", "b.c", "1.5", "0x10"}
+	names := []string{"x", "n", "a", "p1", "true", "lim", "Lim", "LIM", "X", "null", "false"}
+	vals := []string{"1", "-5", "'s'", "1 + 2", "x", "n", "p1", "p2", "now()", "strcat('a', x)", "-(-1)", "(2)", "not(true)", "null", "a", "-x", "x * 2", "`q`", "b.c", "1.5", "0x10", "lim + 1", "lIm", "true", "false", "N", "iff(x, 1, 2)", "'a//b'"}
 	var parts []string
 	nl := r.intn(4)
 	for i := 0; i < nl; i++ {
 		parts = append(parts, "let "+pick(r, names)+" = "+pick(r, vals))
+	}
+	if r.chance(1, 8) {
+		// several spellings of one name that differ only in case, and a value that uses yet another
+		vs := []string{"cutoff", "Cutoff", "CUTOFF", "cutOff"}
+		a, b, c := pick(r, vs), pick(r, vs), pick(r, vs)
+		parts = append(parts, "let "+a+" = 1", "let "+b+" = 2", "let v = "+c+" + 1")
 	}
 	use := pick(r, names)
 	q := pick(r, []string{
